@@ -50,6 +50,8 @@ fn composite_samples() -> Vec<Value> {
     let g_meta = Grid::make_from_dicts_with_meta(vec![d2.clone()], meta.clone());
     let mut g_colmeta = Grid::make_from_dicts(vec![d2.clone()]);
     g_colmeta.columns[0].meta = Some(meta.clone());
+    // a column may carry a tag called `ver` (only the grid's own meta reserves that name in Hayson)
+    if g_colmeta.columns.len() > 1 { let mut m = meta.clone(); m.insert("ver".into(), Value::make_str("1.2")); m.insert("enum".into(), Value::make_list(vec![Value::make_str("off"), Value::make_str("on")])); m.insert("range".into(), Value::make_dict({ let mut r = Dict::new(); r.insert("min".into(), Value::make_int(0)); r })); g_colmeta.columns[1].meta = Some(m); }
     let mut meta2 = meta.clone();
     meta2.insert("m".into(), Value::Marker);
     meta2.insert("n".into(), Value::make_int(3));
@@ -103,6 +105,8 @@ fn composite_samples() -> Vec<Value> {
         Value::make_grid(g_empty),
         Value::make_grid(g_meta),
         Value::make_grid(g_colmeta),
+        // a grid that carries another version than the current one, without meta
+        Value::make_grid({ let mut g = Grid::make_from_dicts(vec![d2.clone()]); g.ver = "2.0".into(); g }),
         Value::make_grid(g_meta2.clone()),
         Value::make_list(vec![Value::make_grid(g_meta2)]),
         Value::make_grid(g_zero_rows),
@@ -418,9 +422,9 @@ mod randgen {
         match rng.below(3) {
             0 => Value::make_list((0..rng.below(4)).map(|_| value(rng, depth + 1, ids, strs, units, zones)).collect()),
             1 => Value::make_dict(dict(rng, depth, ids, strs, units, zones)),
-            _ => { let ncols = 1 + rng.below(4); let cols: Vec<Column> = (0..ncols).map(|i| Column { name: format!("c{i}"), meta: if rng.below(3) == 0 { let m = dict(rng, 2, ids, strs, units, zones); if m.is_empty() { None } else { Some(m) } } else { None } }).collect();
+            _ => { let ncols = 1 + rng.below(4); let cols: Vec<Column> = (0..ncols).map(|i| Column { name: format!("c{i}"), meta: if rng.below(3) == 0 { let m = dict(rng, 1, ids, strs, units, zones); if m.is_empty() { None } else { Some(m) } } else { None } }).collect();
                 let rows: Vec<Dict> = (0..rng.below(4)).map(|_| { let mut r = Dict::new(); for c in &cols { if rng.below(3) != 0 { r.insert(c.name.clone(), value(rng, depth + 1, ids, strs, units, zones)); } } r }).collect();
-                let meta = if rng.below(2) == 0 { let m = dict(rng, 2, ids, strs, units, zones); if m.is_empty() { None } else { Some(m) } } else { None };
+                let meta = if rng.below(2) == 0 { let m = dict(rng, 1, ids, strs, units, zones); if m.is_empty() { None } else { Some(m) } } else { None };
                 Value::make_grid(Grid { meta, columns: cols, rows, ver: "3.0".into() }) }
         }
     }
@@ -1225,7 +1229,7 @@ fn main() {
         // ---- C04 enumerator (reader side): alternative legal spellings of one value -- number forms, escapes, separators, line
         //      endings -- must all be accepted and denote the value of the plain spelling; exit 3 otherwise
         "enum:zinc-spellings" => {
-            let pairs: [(&str, &str); 43] = [
+            let pairs: [(&str, &str); 46] = [
                 ("1.0", "1"), ("1e3", "1000"), ("1E3", "1000"), ("1e+3", "1000"), ("10_000", "10000"), ("1_000.5", "1000.5"), ("5E-1", "0.5"), ("0.10", "0.1"),
                 ("1.50kg", "1.5kg"), ("-0.0", "-0"), ("1e3kW", "1000kW"), ("100%", "1e2%"),
                 ("\"\\u0041\"", "\"A\""), ("\"\\u00e9\"", "\"\u{e9}\""), ("\"\\u00E9\"", "\"\u{e9}\""), ("\"\\u20ac\"", "\"\u{20ac}\""), ("\"a\\tb\"", "\"a\\u0009b\""), ("\"\\b\\f\"", "\"\\u0008\\u000c\""),
@@ -1237,6 +1241,8 @@ fn main() {
                 ("ver:\"3.0\"\r\na\r\n1\r\n", "ver:\"3.0\"\na\n1\n"), ("ver:\"3.0\"\na\n1\r\n", "ver:\"3.0\"\na\n1\n"), ("ver:\"3.0\"\r\nempty\r\n", "ver:\"3.0\"\nempty\n"),
                 ("ver:\"3.0\"\na\n1\n\n", "ver:\"3.0\"\na\n1\n"), ("ver:\"3.0\" x  y:1\na  z,b\n1,2\n", "ver:\"3.0\" x y:1\na z,b\n1,2\n"),
                 ("ver:\"3.0\"\na\n<<\r\nver:\"3.0\"\r\nb\r\n2\r\n>>\n", "ver:\"3.0\"\na\n<<\nver:\"3.0\"\nb\n2\n>>\n"), ("[<<\nver:\"3.0\"\nb\n2\n\n>>]", "[<<\nver:\"3.0\"\nb\n2\n>>]"),
+                // a grid without rows whose text ends right after the column line, with and without meta on the last column
+                ("ver:\"3.0\"\nid,val unit:\"kW\"\n", "ver:\"3.0\"\nid,val unit:\"kW\"\n\n"), ("ver:\"3.0\"\nid,val point\r\n", "ver:\"3.0\"\nid,val point\n\n"), ("ver:\"3.0\"\nid,val\n", "ver:\"3.0\"\nid,val\n\n"),
             ];
             for (alt, plain) in pairs {
                 let a = from_str(alt); let b = from_str(plain);
